@@ -67,6 +67,7 @@ EvalE(P, e, env, st) ==
             LET i == EvalE(P, e.i, env, st) IN
             IF ~Ok(i.st) THEN i ELSE
             [v |-> i.st.cells[IF i.v % 2 = 0 THEN Env0.a0 ELSE Env0.a1], st |-> i.st]
+      [] e.k = "deref" -> [v |-> st.cells[st.cells[env[e.p]].ptr], st |-> st]      \* *p
       [] e.k = "bin" ->
             LET l == EvalE(P, e.l, env, st)
                 r == EvalE(P, e.r, env, l.st)
@@ -262,6 +263,50 @@ ExecS(P, s, env, st0, ctx) ==
             LET vc == NewId(st)
                 l  == Loop3(P, s, env, Alloc(st, 0), ctx, vc)
             IN [env |-> env, st |-> l.st, ctl |-> l.ctl]
+      [] s.k = "rng" ->       \* for v := range n { body } : n is evaluated once, v is a fresh variable per iteration
+            LET RECURSIVE Rng(_, _)
+                Rng(i, s0) ==
+                  IF ~Ok(s0) \/ i >= s.n THEN [st |-> s0, ctl |-> Next_] ELSE
+                  LET vc == NewId(s0)
+                      b  == ExecB(P, s.body, Bind(env, s.v, vc), Alloc(s0, i), ctx)
+                  IN IF ~Ok(b.st) THEN [st |-> b.st, ctl |-> Next_]
+                     ELSE IF b.ctl.k = "ret" THEN [st |-> b.st, ctl |-> b.ctl]
+                     ELSE IF b.ctl.k = "brk" THEN
+                          (IF b.ctl.lab \in {"", s.lab} THEN [st |-> b.st, ctl |-> Next_] ELSE [st |-> b.st, ctl |-> b.ctl])
+                     ELSE IF b.ctl.k = "cont" /\ b.ctl.lab \notin {"", s.lab} THEN [st |-> b.st, ctl |-> b.ctl]
+                     ELSE Rng(i + 1, b.st)
+                l == Rng(0, st)
+            IN [env |-> env, st |-> l.st, ctl |-> l.ctl]
+      [] s.k = "tswitch" ->   \* switch { case c1: ... case c2: ... default: ... } : first true condition
+            LET RECURSIVE Pick_(_, _)
+                Pick_(i, s0) ==
+                  IF i > Len(s.cases) THEN ExecB(P, s.dflt, env, s0, ctx) ELSE
+                  LET c == EvalE(P, s.cases[i].c, env, s0) IN
+                  IF ~Ok(c.st) THEN [env |-> env, st |-> c.st, ctl |-> Next_]
+                  ELSE IF c.v THEN ExecB(P, s.cases[i].body, env, c.st, ctx) ELSE Pick_(i + 1, c.st)
+                d == Pick_(1, st)
+            IN [env |-> env, st |-> d.st, ctl |-> IF d.ctl.k = "brk" /\ d.ctl.lab = "" THEN Next_ ELSE d.ctl]
+      [] s.k = "ifinit" ->    \* if x := e; x op lit { th } else { el } : x is visible in both branches only
+            LET v == EvalE(P, s.e, env, st) IN
+            IF ~Ok(v.st) THEN R(env, v.st) ELSE
+            LET env1 == Bind(env, s.x, NewId(v.st))
+                st1  == Alloc(v.st, v.v)
+                c    == EvalE(P, s.c, env1, st1)
+                b    == ExecB(P, IF c.v THEN s.th ELSE s.el, env1, c.st, ctx)
+            IN [env |-> env, st |-> b.st, ctl |-> b.ctl]
+      [] s.k = "iswap" ->     \* arr[0], arr[1] = arr[1], arr[0]
+            R(env, Store(Store(st, Env0.a0, st.cells[Env0.a1]), Env0.a1, st.cells[Env0.a0]))
+      [] s.k = "mkptr" ->     \* p := &x
+            R(Bind(env, s.p, NewId(st)), Alloc(st, [ptr |-> env[s.x]]))
+      [] s.k = "pset" ->      \* *p = e
+            LET v == EvalE(P, s.e, env, st) IN
+            R(env, IF Ok(v.st) THEN Store(v.st, v.st.cells[env[s.p]].ptr, v.v) ELSE v.st)
+      [] s.k = "pop" ->       \* *p op= e : the operand is evaluated, then *p is read
+            LET v == EvalE(P, s.e, env, st)
+                c == v.st.cells[env[s.p]].ptr
+                o == v.st.cells[c]
+                n == IF s.op = "add" THEN o + v.v ELSE o - v.v
+            IN R(env, IF Ok(v.st) THEN Chk(Store(v.st, c, n), n) ELSE v.st)
       [] s.k = "switch" ->
             LET t == EvalE(P, s.tag, env, st) IN
             IF ~Ok(t.st) THEN R(env, t.st) ELSE
